@@ -304,12 +304,21 @@ class C16(PropBase):
             "repeat the scenario with the future dropped at a poll boundary (n mod polls-to-completion polls). Bodies: ~330-byte "
             "symbol file truncated after EVERY k, corrupt line j for every j, missing final newline, over-long (200 KB) lines "
             "terminated/unterminated, 200 KiB file with sampled cuts; pre-existing entry valid/corrupt/directory; local symbol "
-            "paths; cache or tmp below a regular file (ENOTDIR), tmp missing, RLIMIT_FSIZE write failures. Non-trivial = a cache "
+            "paths; cache or tmp below a regular file (ENOTDIR), tmp missing, RLIMIT_FSIZE write failures. Shared-cache histories (kM): "
+            "2-3 HttpSymbolSupplier instances share one cache and one tmp directory and fetch the same module from gated servers that "
+            "release head / half body / end in every interleaving, for every pair of outcomes (200 Content-Length / chunked / "
+            "close-delimited, 4xx/5xx, cut mid-line, RST at a line boundary, corrupt line, no response, future dropped before the head / "
+            "after the head / after half the body), late starters, pre-existing valid / corrupt / directory entries; the directories are "
+            "snapshotted after every release point. Non-trivial = a cache "
             "entry exists in some block or the future was dropped; distinct = distinct case lines")
     trusted_base = [
         "Coq 8.16.1 kernel; vm_compute in the non-vacuity examples only",
         "hand-written model C16/Model.v (state machine of fetch_symbol_file/commit_cache_file/locate_symbols over an abstract file system), "
-        "tied to the code by the correspondence run only (no translator)",
+        "tied to the code by the correspondence run; hand-written interpreter C16/Shared.v (one fs operation per scheduler step, any number of "
+        "clients) whose operation programs create_ops / commit_ops and the step order of fetch_symbol_file are regenerated from http.rs by "
+        "translate/c16_fsops.py (statement-by-statement, aborts on any statement it does not know); the meaning of each operation "
+        "(exec_op: create_dir_all, exists+remove_file, NamedTempFile::new_in, write_all, persist_noclobber as ONE atomic step each) is hand-written",
+        "temp files are keyed by their owning client (NamedTempFile names are unique: O_EXCL + random suffix); one temp file per client at a time",
         "the symbol parser is a parameter of the model (verdict a function of the byte string: C09/C10); the driver instantiates it with C09/C10's "
         "parse_bytes (line recogniser of C16/Driver.v only for inputs with over-long lines), compared with the real parser on every case",
         "the temp file is modelled as holding all bytes received; the real tee callback lags by the unfinished last line and has "
@@ -320,7 +329,9 @@ class C16(PropBase):
     ]
     assumptions = [
         "c16_rehit_same: parser = C09/C10's parse_bytes (the real parser's verdict when all lines are < 80 KiB), contract proved there (c10_cached_form_parse); hypothesis url_ok for the server URLs (always true for Url::to_string()). For inputs with over-long lines only c16_rehit_same_any_parser (contract assumed) and the harness apply",
-        "no second process writes the cache concurrently (theorems about whole lookups take race = None); a crash of the whole process mid-persist is not modelled",
+        "the single-lookup theorems take race = None; concurrent clients are covered by the c16_shared_* theorems, in which every client runs THIS code (same operation programs) "
+        "and each file-system operation is atomic; a foreign writer with other code, and a crash of the whole process (no RAII cleanup), are not modelled",
+        "c16_shared_*: hypotheses m_cache f = c0 (whatever is at the path initially) and an initially empty tmp directory; clients use the cache path of one module",
         "locate_file (fetch_lookup: binaries, extra debug info), the code-info redirect lookup and inputs with 60-170 KB lines are judged by the oracle only (the model answers '?'); fetch_cab_lookup (feature mozilla_cab_symbols) is not covered",
     ]
     manifest = {
@@ -330,9 +341,16 @@ class C16(PropBase):
                 "(+ one newline iff they lack a final newline) + `INFO URL u\\n`; tmp is as before after every finished run and holds at most "
                 "the one in-flight file while pending; every non-success run leaves the whole cache untouched; local paths and cache decide "
                 "before the network (only NotFound cascades); servers are asked in order, once each; a later cache hit gives the same table and URL without a request (c16_rehit_same: "
-                "for C09/C10's parser model with its proved contract, url_ok the only hypothesis). Runtime behaviour NOT modelled but exercised: reqwest/hyper/tokio, NamedTempFile RAII, rename atomicity — "
+                "for C09/C10's parser model with its proved contract, url_ok the only hypothesis). Shared cache (any number of clients running this code, every interleaving of their network "
+                "events and of their individual file-system operations; the operation order of create_cache_file / commit_cache_file is translated from http.rs on every run): "
+                "c16_shared_cache_inv (whatever file is at the path is the initial one or body+[newline]+note of a wholly parsed body; finished clients own no temp file; an in-flight temp file "
+                "holds exactly what its client received), c16_shared_cache_changes_only_in_commit, c16_shared_failed_downloads_keep_entry (no step of a client outside commit_cache_file "
+                "-- head arriving, streaming, any failure, drop -- changes an entry another client committed), c16_shared_seeded_order_refuted (removal moved into create_cache_file: "
+                "a failing client deletes the entry), c16_commit_program_refines / c16_create_program_refines (the translated programs = the one-step functions of the single-client model, "
+                "every error branch). Runtime behaviour NOT modelled but exercised: reqwest/hyper/tokio, NamedTempFile RAII, rename atomicity — "
                 "the real HttpSymbolSupplier runs against a scripted loopback server (every truncation point, chunkings, cascades, I/O failures, "
-                "drops at poll boundaries) and is compared with the extracted model; an independent oracle re-checks cache/tmp trees and the re-hit.",
+                "drops at poll boundaries; 2-3 suppliers sharing cache+tmp with server-controlled interleavings, directory snapshots at every release point) and is compared with the extracted "
+                "models; an independent oracle re-checks cache/tmp trees, the survival of committed entries across other clients' failures, and the re-hit.",
         "note": "Trusted: Coq kernel; hand-written model (correspondence-checked only); parser abstract (C09/C10); kernel/file-system and HTTP stack are runtime. "
                 "F-C16a (URL lost on cache hit for an over-long unterminated last line) fixed in /repo 13aaab3. Only c16_no_stray_tmp_partial / "
                 "c16_locate_no_stray_tmp_partial keep the suffix: NamedTempFile's Drop is a definition of the model, not derived.",
